@@ -100,11 +100,12 @@ def model_part(ctx, pid):
             ok, viol, st, out = run_one(ctx, 'chain2', ['DetectorSoundModuloInFlight'], False, dwc=False)
             if ok or not viol or 'DetectorSoundModuloInFlight' not in viol:
                 ctx.inconclusive('Engine.tla with DeployWaitChecked = FALSE no longer violates DetectorSoundModuloInFlight: the invariant became vacuous')
-            # the known finding KF-C09 (a notification in flight is invisible to the detector) is IN the model: the
+            # the window of the former known finding KF-C09 (a notification in flight is invisible to the detector; the engine now
+            # covers all of it but the instant between a step's state update and its call into the loop) is IN the model: the
             # unqualified statement must be violated there, or model and code have parted ways on the detector hand-shake
             ok, viol, st, out = run_one(ctx, 'chain2', ['DetectorSound'], False)
             if ok or not viol or 'DetectorSound ' not in viol + ' ':
-                ctx.inconclusive('Engine.tla no longer violates DetectorSound: the in-flight window of known finding KF-C09 is not in the model any more')
+                ctx.inconclusive('Engine.tla no longer violates DetectorSound: the in-flight window (former known finding KF-C09) is not in the model any more')
 
 
 # ---------------------------------------------------------------------------------------------------------------
